@@ -120,12 +120,14 @@ structure St where
   /-- `transmitMaxRetries`: 0 = retry forever (the default), n > 0 = give up on an event
   after n failed attempts -/
   maxRetries : Nat := 0
-  /-- what-if parameter: FIFO keys whose stored bytes `flate.Decompress` rejects. The FIFO
-  stores `flate.Compress(json(batch))`; the tree's `Decompress` inverts `Compress` for every
-  input whatever its size (regenerated fact `flateDecompressBody`, round-trip oracle in the
-  correspondence run), so the tree and the driver have `[]`. Only `decode_failure_witness`
-  uses another value. -/
-  undecodable : List Nat := []
+  /-- whether the stored form of a FIFO item decodes: the FIFO stores
+  `flate.Compress(json(batch))` and the leader loop sends `flate.Decompress(stored)`;
+  `decodable b` = that decompression succeeds for batch `b`. Props/C25 instantiates it from a
+  compress/decompress pair (`FlateLaw.decodes`); under the round-trip law it is constantly
+  `true`, which is also what the driver runs with (the tree's `Decompress` inverts `Compress`
+  for every input whatever its size: regenerated fact `flate_decompress_unbounded`, round-trip
+  oracle in the correspondence run). -/
+  decodable : Batch → Bool := fun _ => true
   /-- events the leader loop gave up on: the finite retry limit was exhausted
   ("dropped_failed_to_send"), or the stored bytes did not decompress (logged, `unsent := nil`,
   `continue`: an explicit DROP, the HWM stays) -/
@@ -142,7 +144,6 @@ structure St where
   maxIn : Nat := 0
   lastFed : Nat := 0
   front : Nat := 0
-deriving Repr
 
 def hiIdx (b : Batch) : Nat := b.foldl (fun m g => max m g.idx) 0
 
@@ -172,7 +173,7 @@ def pump : Nat → St → St
     match s.held with
     | some (k, b) =>
       if k ≤ s.hwm then pump fuel { s with held := none }   -- HWM has passed it meanwhile: skipped
-      else if k ∈ s.undecodable then
+      else if s.decodable b = false then
         -- `flate.Decompress(ev.Data)` fails: the event is dropped before any send
         pump fuel { s with held := none, dropped := s.dropped ++ [(k, b)] }
       else if s.up then pump fuel { s with held := none, delivered := s.delivered ++ [(k, b)], hwm := k }
@@ -269,7 +270,6 @@ deriving Repr, DecidableEq
 structure StQ where
   s : St := {}
   queued : List Entry := []
-deriving Repr
 
 /-- the queued groups reach writeToBatcher -/
 def drainHand (q : StQ) : StQ :=
